@@ -40,6 +40,9 @@ structure Session (α : Type) where
   bindings : List (String × Nat)
   locals : List α
   lastResult : α
+  /-- `Repl.last_result_type`: the static type the next line's parameter is compiled against (a token;
+      the model never looks inside a type) -/
+  lastResultTy : String := "[]"
   deriving Repr
 
 variable {α : Type}
@@ -73,7 +76,8 @@ def compact (s : Session α) : Session α :=
   let keep := keepIndices s.bindings
   { bindings := s.bindings.map (fun p => (p.1, (newIndex keep p.2).getD p.2)),
     locals := (keptValues s.locals keep).getD s.locals,
-    lastResult := s.lastResult }
+    lastResult := s.lastResult,
+    lastResultTy := s.lastResultTy }
 
 /-- Value of a variable as `request_variable` reads it: binding index, then that local. -/
 def lookup (s : Session α) (x : String) : Option α :=
@@ -96,6 +100,8 @@ structure LineEffect (α : Type) where
       top-level frame: locals are kept) -/
   appended : List α
   result : α
+  /-- the line's static result type (`Compiled.result_type`) -/
+  resultTy : String := "[]"
 
 /-- What can happen to a submitted line. -/
 inductive LineOutcome (α : Type) where
@@ -108,7 +114,12 @@ inductive LineOutcome (α : Type) where
   /-- compiled, resumed, ran to a value, result delivered (with the orphan release) -/
   | ran (eff : LineEffect α)
 
-/-- `Repl::evaluate` followed by the delivery of the result. -/
+/-- `Repl::evaluate` followed by the delivery of the result.
+
+    A line that runs no code (`noCode`: type definitions only) commits its bindings and **keeps both the
+    stored result and its type**: nothing is resumed, so the value that will flow into the next line is
+    still the old one and must still be typed as such (repl.rs since 7b757f2: `last_result_type` is
+    assigned only `if !instructions.is_empty()`). -/
 def runLine (nil : α) (s : Session α) : LineOutcome α → Session α
   | .parseError => s
   | .compileError => compact s
@@ -117,7 +128,17 @@ def runLine (nil : α) (s : Session α) : LineOutcome α → Session α
     let c := compact s
     { bindings := eff.bindings,
       locals := releaseOrphans nil (keepIndices eff.bindings) (c.locals ++ eff.appended),
-      lastResult := eff.result }
+      lastResult := eff.result,
+      lastResultTy := eff.resultTy }
+
+/-- The rule before 7b757f2 (finding F-C11-1), kept as a witness: every successfully compiled line —
+    also a code-less one, whose `compile_top_level` result type is nil — overwrote `last_result_type`. -/
+def runLineOld (nil : α) (s : Session α) : LineOutcome α → Session α
+  | .noCode b => { compact s with bindings := b, lastResultTy := "[]" }
+  | o => runLine nil s o
+
+/-- The flowing value is typed by the recorded type (`hasTy` is whatever typing judgement one likes). -/
+def ArgTyped (hasTy : α → String → Prop) (s : Session α) : Prop := hasTy s.lastResult s.lastResultTy
 
 /-- The argument the next line's function starts with (`resume_process` pushes `process.result`). -/
 def nextArgument (s : Session α) : α := s.lastResult
